@@ -56,6 +56,18 @@ FILES = {
     "OSq.Proofs.Bands4": {"C01": None},
     "OSq.Proofs.Bands5": {"C01": None, "C10": ["OSq.Bands.cnotDecompose_ok_shortcut"]},
     "OSq.Proofs.Kron": {"C08": None},
+    "OSq.Proofs.DecomposeBand": {"C06": None, "C01": ["OSq.gateOp_unitary", "OSq.checkGateReplacement_band_op"]},
+    "OSq.Proofs.DecomposeBand2": {"C06": None, "C01": ["OSq.decompose_ok_band", "OSq.decomposeBuiltin_ok_band"], "C05": ["OSq.decompose_ok_band", "OSq.replace_ok_band", "OSq.decompose_fail_band"]},
+    "OSq.Proofs.DecomposeBand3": {"C06": None},
+    "OSq.Proofs.DecomposeBand4": {"C01": None, "C06": None},
+    "OSq.Proofs.MergeBand": {"C02": None},
+    "OSq.Proofs.MergeBand2": {"C02": None},
+    "OSq.Proofs.MergeBand3": {"C02": None, "C05": ["OSq.Bands.merge_all_inputs"]},
+    "OSq.Proofs.MergeBand4": {"C02": None},
+    "OSq.Proofs.MergeBand5": {"C02": None},
+    "OSq.Proofs.V3Sem": {"C04": None},
+    "OSq.Proofs.V3Sem2": {"C04": None},
+    "OSq.Proofs.V3Sem3": {"C04": None},
     "OSq.Proofs.PipelineShape": {"C10": None},
     "OSq.Proofs.EqBands": {"C06": None, "C16": None},
     "OSq.Proofs.EqBands2": {"C06": None, "C16": None},
